@@ -1,5 +1,6 @@
 import SluProofs.Lemmas.LUInv
 import Slu.Model.History
+set_option linter.unusedSectionVars false
 /-
 Helper lemmas for C06: the state machine `Slu.History.stepCall` over the LU invariant `Slu.LU.Inv`.
 -/
